@@ -123,6 +123,29 @@ func c06Scenarios(tier string) []*Scenario {
 		sc.Name = "after-an-abandoned-call|" + rpcName(sc.RPCs[0]) + " >> " + rpcName(sc.RPCs[1])
 		out = append(out, sc)
 	}
+	// one message object per sender, sent again and again: overwritten in place before every send, scribbled
+	// over once the send has returned, while the receiver may not have taken the previous one yet; and the
+	// receiver changes what it received in place. Each side still sees exactly what the other handed over.
+	for _, c := range []string{"", "cancel"} {
+		for _, rpc := range []RPC{
+			{Kind: "ss", Client: []string{"S0", "C", "R*"}, Handler: []string{"r", "s0", "s1", "s2", "ret:ok"}},
+			{Kind: "cs", Client: []string{"S0", "S1", "S2", "C", "R*"}, Handler: []string{"r*", "s0", "ret:ok"}},
+			{Kind: "bd", Client: []string{"S0", "S1", "S2", "C"}, Client2: []string{"R*"}, Handler: []string{"r", "s0", "r", "s1", "r*", "s2", "ret:ok"}},
+			{Kind: "bd", Client: []string{"S0", "S1", "C"}, Client2: []string{"R*"}, Handler: []string{"go", "r*", "join", "ret:ok"}, Handler2: []string{"s0", "s1", "s2"}},
+		} {
+			if c != "" && rpc.Kind != "bd" {
+				continue
+			}
+			n := "plain"
+			if c != "" {
+				n = c
+			}
+			sc := sc1("C06", "reuse|"+n+"|"+rpcName(rpc), "inproc", c, rpc)
+			sc.Cloner = "recording+yield" // the application's cloner may contain scheduling points
+			sc.Opts = "reuse"
+			out = append(out, sc)
+		}
+	}
 	if tier == "thorough" {
 		for _, c := range []string{"", "cancel"} {
 			add(c, RPC{Kind: "bd", Client: []string{"S0", "S1", "S2", "C"}, Client2: []string{"R*"}, Handler: []string{"go", "r*", "join", "ret:ok"}, Handler2: []string{"s0", "s1", "s2"}})
@@ -145,6 +168,15 @@ func c06Oracle(sc *Scenario, rec *Rec, s *mc.Sched) []mc.Violation {
 		for _, m := range rr.Monitor {
 			if strings.HasPrefix(m, "prefix:handler") {
 				out = append(out, mc.Violation{Clause: "request-content", Obs: fmt.Sprintf("rpc%d: %s", i, m[len("prefix:"):]), Detail: rr})
+			}
+			if strings.HasPrefix(m, "prefix:client") {
+				out = append(out, mc.Violation{Clause: "response-content", Obs: fmt.Sprintf("rpc%d: %s", i, m[len("prefix:"):]), Detail: rr})
+			}
+			if strings.HasPrefix(m, "alias:") {
+				out = append(out, mc.Violation{Clause: "shared-memory", Obs: fmt.Sprintf("rpc%d: %s", i, m[len("alias:"):]), Detail: rr})
+			}
+			if strings.HasPrefix(m, "merge:") {
+				out = append(out, mc.Violation{Clause: "destination-merged", Obs: fmt.Sprintf("rpc%d: %s", i, m[len("merge:"):]), Detail: rr})
 			}
 		}
 		for _, got := range rr.SrvRecv {
